@@ -113,10 +113,10 @@ class Rates(dict):
         return (1 + sum(name.encode()) % 97) * 1e-9
 
 
-def make_pool(name, cloud, worker_type, worker_cores, preemptible, label='', local_ssd=True):
+def make_pool(name, cloud, worker_type, worker_cores, preemptible, label='', local_ssd=True, ext_gb=100):
     return icc.PoolConfig(
         name=name, cloud=cloud, worker_type=worker_type, worker_cores=worker_cores,
-        worker_local_ssd_data_disk=local_ssd, worker_external_ssd_data_disk_size_gb=0 if local_ssd else 100,
+        worker_local_ssd_data_disk=local_ssd, worker_external_ssd_data_disk_size_gb=0 if local_ssd else ext_gb,
         standing_worker_cores=worker_cores, boot_disk_size_gb=10, min_instances=0, max_instances=10,
         max_live_instances=10, preemptible=preemptible, max_new_instances_per_autoscaler_loop=1,
         autoscaler_loop_period_secs=1, worker_max_idle_time_secs=1, standing_worker_max_idle_time_secs=1,
@@ -148,7 +148,8 @@ def config(cloud, variant):
        non-preemptible one, a labelled pool and a pool of the other cloud;
     2: large first, external data disk, a labelled non-preemptible pool;
     3: like 1 but the large pools use the largest core count of the table, which is NOT a power of two
-       (gcp 96; azure 64 is, so E/20 and F/72 are added) - exercises the known-finding class."""
+       (gcp 96; azure 64 is, so E/20 and F/72 are added) - exercises the known-finding class;
+    4, 5: the same worker type twice with 4 and 16 worker cores (small first / large first)."""
     other = 'azure' if cloud == 'gcp' else 'gcp'
     pools = []
     if variant == 0:
@@ -169,6 +170,18 @@ def config(cloud, variant):
             pools.append(make_pool(f'{wt}-large', cloud, wt, vc[-1], True, local_ssd=False))
             pools.append(make_pool(f'{wt}-small', cloud, wt, vc[0], True, local_ssd=False))
         pools.append(make_pool('labelled-np', cloud, types(cloud)[1], 4, False, label='x'))
+    elif variant in (4, 5):
+        # the SAME worker type twice with different power-of-two worker_cores (4 and 16), in both iteration orders
+        # (4: small first, 5: large first), preemptible and not, plus one pool of a second worker type
+        wt0, wt1 = types(cloud)[0], types(cloud)[1]
+        order = (4, 16) if variant == 4 else (16, 4)
+        for pre in (True, False):
+            for c in order:
+                # variant 5: the large pool carries a big external data disk, so that with the REAL rate table the small
+                # pool is the cheaper one for mid-size jobs (replays use the real price computation)
+                big_disk = variant == 5 and c == 16
+                pools.append(make_pool(f'{wt0}-{c}{"" if pre else "-np"}', cloud, wt0, c, pre, local_ssd=not big_disk, ext_gb=8192))
+        pools.append(make_pool(f'{wt1}-8', cloud, wt1, 8, True))
     else:
         for wt in types(cloud):
             vc = valid_cores(cloud, wt)
